@@ -22,6 +22,24 @@ CHECKS = {
                      "exhaustive exploration is the right level because the property is a forall over input "
                      "shapes whose defects live in index bookkeeping per (l, K, M, type) class.",
                 technique="exhaustive enumeration of a finite configuration product against a reference model"),
+    "C02": dict(engine=E1, ref="5/C02",
+                text="Same complete configuration product as C01 executed on kinetic_energy_integral (both shell "
+                     "orders) and its block routine in both orientations, compared with -1/2 sum <a|d2|b> built "
+                     "from closed-form 1-D tables with explicit ket differentiation, at 1e-8*sqrt(T_aa T_bb).",
+                technique="exhaustive enumeration of a finite configuration product against a reference model"),
+    "C07": dict(engine=E1, ref="5/C07",
+                text="Complete product of l-pairs 0..4 x types x geometry x shape x origin class, each observed "
+                     "with all 125 order triples in one call, all 144 ordered pairs from a generating list, "
+                     "shuffled lists, the (0,0,0)==overlap identity and the binomial origin-shift law; compared "
+                     "with closed-form moments at the Cauchy-Schwarz scale.",
+                technique="exhaustive enumeration of a finite configuration product against a reference model"),
+    "C08": dict(engine=E1, ref="5/C08",
+                text="Every ordered pair of functions - upper, lower and diagonal blocks - of the momentum and "
+                     "angular-momentum matrices is compared with an independent reference for all l-pairs 0..4 x "
+                     "types x geometry x shapes, and for 3- and 4-shell bases in every one of the n! shell "
+                     "orderings and every type pattern, with and without a transformation; Hermiticity and zero "
+                     "real part are checked on every returned array.",
+                technique="exhaustive enumeration of shell orderings and configurations against a reference model"),
 }
 
 NOT_YET = {}
